@@ -39,6 +39,26 @@ class Roles:
                 if not isinstance(call, ast.Call):
                     continue
                 self.edges.append((caller, call, callee, self.bind(callee, call)))
+        # roles are typed by their seeds (skip list: tuple, tolerance: int, mode: one of the MODE_* strings);
+        # a parameter whose default has another type cannot carry the role: a flow into it is a mis-directed
+        # argument (reported by the threading rule at that call site), not a new member of the role
+        domain = {'skip': (tuple, list), 'tolerance': (int,), 'mode': (str,)}
+        self.conflicts = []
+
+        def compatible(fq, p, role):
+            fd = self.fds.get(fq)
+            if fd is None:
+                return True
+            d = fd.defaults().get(p)
+            if d is None:
+                return True
+            try:
+                v = Folder(repo, fd.module).ev(d)
+            except Unfoldable:
+                return True
+            if v is None:
+                return True
+            return isinstance(v, domain[role]) and not (role == 'tolerance' and isinstance(v, bool))
         changed = True
         while changed:
             changed = False
@@ -48,8 +68,11 @@ class Roles:
                         if a is None or (callee.fq, p) in members:
                             continue
                         if self.mentions(caller, a, role):
-                            members.add((callee.fq, p))
-                            changed = True
+                            if compatible(callee.fq, p, role):
+                                members.add((callee.fq, p))
+                                changed = True
+                            elif ((callee.fq, p), role) not in self.conflicts:
+                                self.conflicts.append(((callee.fq, p), role))
 
     def bind(self, callee, call):
         ps = callee.params()
@@ -119,18 +142,23 @@ def threading(ctx, role, rule_id, title, floor):
     for caller, call, callee, bound in R.edges:
         if not R.has_role(caller, role):
             continue
-        cps = set(R.role_params(callee, role))
-        # a callee parameter with the same keyword name as the caller's option is the same option
-        # (this is how the repository threads its options), even if no caller forwards it today
-        cps |= {p for p in callee.params() if p in R.local_taint(caller, role) and p in callee.defaults()}
-        cps = sorted(cps)
+        # the repository threads its options by keyword of the same name: the obligation is on the callee
+        # parameter named like the caller's option (whether or not some caller forwards it today); a parameter
+        # of another name that happens to receive the role somewhere is not an obligation for every caller
+        mine = R.local_taint(caller, role)
+        cps = sorted({p for p in callee.params() if p in mine and (p in callee.defaults() or (callee.fq, p) in R.roles[role])})
         if not cps:
             continue
         if caller.module.name not in ('reader', 'tex', '__init__') or callee.module.name not in ('reader', 'tex', '__init__'):
             continue
+        shallow = _shallow_call(ctx, callee, call)
         for p in cps:
             a = bound.get(p)
             ok = a is not None and (R.mentions(caller, a, role) or (role == 'mode' and _is_mode_const(R, caller, a)))
+            if not ok and shallow:
+                rr.ob(True, {'edge': '%s -> %s' % (caller.qual, callee.qual), 'parameter': p, 'forwarded': False,
+                             'exempt': 'constant arguments make the callee read nothing nested (it never uses the option)'})
+                continue
             exc = THREADING_EXCEPTIONS.get((role, caller.fq, callee.fq))
             sample = {'edge': '%s -> %s' % (caller.qual, callee.qual), 'parameter': p,
                       'argument': norm(a) if a is not None else '<default>', 'forwarded': ok}
@@ -146,6 +174,31 @@ def threading(ctx, role, rule_id, title, floor):
                                                                norm(a) if a is not None else 'its default'),
                                 line=call.lineno))
     return rr
+
+
+def _shallow_call(ctx, callee, call):
+    """constant count arguments make the callee read nothing nested (so it never uses an option): decided from
+    the conservation engine's result shapes for that constant context -- every returned component other than
+    single tokens is empty"""
+    consts = [a.value for a in call.args[1:3] if isinstance(a, ast.Constant) and isinstance(a.value, int)]
+    if consts != [0, 0]:
+        return False
+    from . import rules_conserve
+    e = rules_conserve.engine(ctx, 'any')
+    found = False
+    for (fq, cx), shapes in e.summ.items():
+        if fq != callee.fq:
+            continue
+        vals = [v[1] for k, v in cx if isinstance(v, tuple) and v[0] == 'const' and isinstance(v[1], int) and k.startswith('n_')]
+        if vals != [0, 0]:
+            continue
+        for shp in shapes:
+            found = True
+            comps = shp[1] if shp[0] == 'tuple' else (shp,)
+            for c in comps:
+                if c[0] == 'owned' and c[2] not in (0, 1):
+                    return False
+    return found
 
 
 def _is_mode_const(R, fd, a):
@@ -297,7 +350,12 @@ def r07_a(ctx):
             use = None
             while p is not None:
                 if isinstance(p, ast.Call) and (node in p.args or any(k.value is node or k is node for k in p.keywords)):
-                    use = ('arg', p)
+                    tgt = p.func
+                    if isinstance(tgt, ast.Call):
+                        tgt = tgt.args[0] if tgt.args else tgt
+                    r = repo.resolve(fd.module, tgt.id) if isinstance(tgt, ast.Name) else None
+                    forwards = (r is not None and r[0] in ('func', 'class')) or isinstance(tgt, ast.Attribute)
+                    use = ('arg', p) if forwards else ('other', _stmt_of(p))
                     break
                 if isinstance(p, ast.keyword):
                     node, p = p, getattr(p, '_parent', None)
@@ -375,6 +433,12 @@ def r07_a(ctx):
     if n_conds < 2:
         raise AnalysisError('fewer than two tolerance tests found (%d)' % n_conds)
     return [rr, rc]
+
+
+def _stmt_of(n):
+    while n is not None and not isinstance(n, ast.stmt):
+        n = getattr(n, '_parent', None)
+    return n
 
 
 def _within(node, root):
@@ -652,4 +716,41 @@ def r02_b(ctx):
     if not ge:
         rr.fail(Finding('R02.b', 'reader', fd.qual, 'no stop at a closing brace', 'an item inside a brace group would '
                         'swallow the closing brace of the group', line=w.lineno))
+    return rr
+
+
+def r07_e(ctx):
+    """strict mode reports every construct that runs into the end of the input"""
+    from . import cursor
+    repo = ctx.repo
+    R = roles(ctx)
+    entry = repo.need_func('reader.read_tex')
+    ps = R.role_params(entry, 'tolerance')
+    if not ps:
+        raise AnalysisError('the tolerance option does not reach reader.read_tex')
+    e = ctx.memo('cursor.engine.strict', lambda: cursor.analyse_reader(repo, {p: ('const', 0) for p in ps}))
+    rr = RuleResult('R07.e', 'in strict mode the readers of environments, groups and math regions never return normally '
+                    'with the input exhausted and no closer consumed: a lost closer is reported', floor=4)
+    want = ('reader.read_env', 'reader.read_arg', 'reader.read_math_env', 'reader.read_skip_env')
+    seen = set()
+    for key, exits in sorted(e.memo.items(), key=str):
+        if key[0] not in want:
+            continue
+        kc = dict(key[1])
+        tol = [v for k, v in kc.items() if (key[0], k) in R.roles['tolerance']]
+        if tol and not all(v == ('const', 0) for v in tol):
+            continue
+        seen.add(key[0])
+        bad = [ex for ex in exits if ex.eof]
+        rr.ob(not bad, {'reader': key[0].split('.')[-1], 'entry': 'avail=%s eof=%s' % (key[2], key[3]), 'normal_exits': len(exits),
+                        'exits_with_input_exhausted': len(bad)})
+        if bad:
+            fd = repo.need_func(key[0])
+            rr.fail(Finding('R07.e', 'reader', fd.qual, '%s: normal return at end of input without a closer (strict mode)' % fd.qual,
+                            'in strict mode %s can return normally when the input ended before its closing delimiter: a '
+                            'document that lost a closer is accepted silently (and a closer is invented on output)' % fd.qual,
+                            line=fd.node.lineno))
+    missing = [w for w in want if w not in seen]
+    if missing:
+        raise AnalysisError('strict-mode contexts missing for %s' % missing)
     return rr
